@@ -267,6 +267,7 @@ class Extractor:
         self.clsname = clsname
         self.methods = {f.name: f for f in self.cls.body if isinstance(f, ast.FunctionDef)}
         self._glob_memo = {}
+        self._escaped = {}
 
     # ---- global state reachable from a function / class of the package (Glob atoms only) -------------------
     def globs_of(self, mod: Module, node, depth=0):
@@ -287,12 +288,7 @@ class Extractor:
         return out
 
     def _globs_body(self, mod, fn, cls, depth):
-        out = set()
-        a = fn.args
-        pos = a.posonlyargs + a.args
-        for p, d in list(zip(pos[len(pos) - len(a.defaults):], a.defaults)) + [(p, d) for p, d in zip(a.kwonlyargs, a.kw_defaults) if d is not None]:
-            if _mutable_default(d):
-                out.add(f'default:{fn.name}.{p.arg}')
+        out = {f'default:{fn.name}.{p}' for p in self.shared_defaults(mod, fn, cls)}
         local_types = {}
         for n in ast.walk(fn):
             if isinstance(n, ast.Assign) and isinstance(n.value, ast.Call) and isinstance(n.value.func, ast.Name):
@@ -506,6 +502,8 @@ class Extractor:
                 continue                                   # scalars: op= rebinds
             roots[x.arg] = {x.arg}
         mutated = set()
+        escaped = set()                                  # parameters stored un-copied in an attribute, or returned un-copied
+        self._escaped[key] = escaped
         methods = {f.name: f for f in cls.body if isinstance(f, ast.FunctionDef)} if cls is not None else {}
 
         def al(e, env):
@@ -575,6 +573,8 @@ class Extractor:
                     for x in t.elts:
                         assign(x, None, env)           # unpacked elements of an array are scalars / fresh rows
             elif isinstance(t, (ast.Subscript, ast.Attribute)):
+                if _self_attr(t) and v is not None:
+                    escaped.update(al(v, env))
                 b = t
                 while isinstance(b, (ast.Subscript, ast.Attribute)) and not _self_attr(b):
                     b = b.value
@@ -628,6 +628,9 @@ class Extractor:
                     for t in st.targets:
                         if isinstance(t, ast.Subscript):
                             assign(t, None, env)
+                elif isinstance(st, ast.Return):
+                    scan_calls(st, env)
+                    escaped.update(al(st.value, env))
                 else:
                     scan_calls(st, env)
 
@@ -636,13 +639,22 @@ class Extractor:
         self._glob_memo[key] = out
         return out
 
-    def method_cmd(self, fn):
-        pre = [('Glob', f'arg:{fn.name}.{p}') for p in sorted(self.inplace_params(self.mod, fn, self.cls))]
+    def shared_defaults(self, mod, fn, cls):
+        """parameters whose default is a mutable object created once at definition time AND that the function may update in place,
+        store un-copied in an attribute or return un-copied (a default that is only read or copied is a constant)"""
+        ip = self.inplace_params(mod, fn, cls)
+        esc = self._escaped.get(('ip', mod.relpath, (cls.name + '.' if cls is not None else '') + fn.name), set())
         a = fn.args
         pos = a.posonlyargs + a.args
+        out = []
         for p, d in list(zip(pos[len(pos) - len(a.defaults):], a.defaults)) + [(p, d) for p, d in zip(a.kwonlyargs, a.kw_defaults) if d is not None]:
-            if _mutable_default(d):
-                pre.append(('Glob', f'default:{fn.name}.{p.arg}'))
+            if _mutable_default(d) and (p.arg in ip or p.arg in esc):
+                out.append(p.arg)
+        return out
+
+    def method_cmd(self, fn):
+        pre = [('Glob', f'arg:{fn.name}.{p}') for p in sorted(self.inplace_params(self.mod, fn, self.cls))]
+        pre += [('Glob', f'default:{fn.name}.{p}') for p in self.shared_defaults(self.mod, fn, self.cls)]
         return seq(pre + [self.stmts(fn.body, {})])
 
     def table(self):
